@@ -19,7 +19,7 @@ def RULE(tier):
     k = 3 if tier == "quick" else 4
     return (
         "The outbound journal is produced by driving a real logged-on endpoint (both roles): each slot is an application "
-        "message (with / without groups; bodies rotating over fields like 835=0, 135=5, 235=2 and texts ending in '35=A', which look like a session MsgType field to a byte scanner), a session message (Heartbeat, ResendRequest, TestRequest, Logon, Logout), an "
+        "message (with / without groups; bodies rotating over application-set routing fields of the standard header (SenderSubID 50, TargetSubID 57, OnBehalfOfCompID 115), fields like 835=0, 135=5, 235=2 and texts ending in '35=A', which look like a session MsgType field to a byte scanner), a session message (Heartbeat, ResendRequest, TestRequest, Logon, Logout), an "
         "application message the endpoint's should_replay declines, a session-level Reject (FREE kind), a hole (row deleted, "
         f"or numbers skipped with set_seq_num). EXHAUSTIVELY all journals of <= {k} slots over the slot kinds x ALL "
         "(BeginSeqNo, EndSeqNo) with BeginSeqNo in [-1, L+3], EndSeqNo in {0} U [BeginSeqNo-1, L+3], issued one after the "
@@ -87,6 +87,11 @@ class Driver:
             elif v == 2 and kind != "declined":
                 m.set(58, "see 35=A", replace=True)
                 m.set(235, "2")
+            elif v == 0 and self.uid % 2 == 0:
+                # routing fields of the standard header set by the application: part of what was sent, so part of what is resent
+                m.set(50, f"desk{self.uid}")
+                m.set(57, "gw")
+                m.set(115, "CLIENTX")
             if kind == "app43n":
                 m.set(43, "N")  # an application message sent with an explicit PossDupFlag=N is still replayable
             if kind == "appg":
